@@ -66,15 +66,19 @@ func (q *queue) Ack(prefix string, pkt packet.Packet) error {
 	switch p := pkt.(type) {
 	case Ackers:
 		k := hashKey(prefix, p.GetMessageId())
-		v, ok := q.msg.Delete(k)
+		v, ok := q.msg.Get(k)
 		if !ok {
 			return ErrWrongMID
 		}
 		msg := v.(message)
-		q.timeouts.Delete(k, msg.deadline)
 		if msg.state != pkt.Type() {
 			return fmt.Errorf("unexpected packet type: wanted %v, got %v", msg.state, pkt.Type())
 		}
+		if _, ok := q.msg.Delete(k); !ok {
+			// resolved by an expiry sweep in the meantime
+			return ErrWrongMID
+		}
+		q.timeouts.Delete(k, msg.deadline)
 		msg.callback(false, msg.pkt, pkt)
 		return nil
 	default:
